@@ -33,8 +33,8 @@ T = {
          'Coq: refinement to a list + invariant by induction over the operation list'),
  'C14': ('hold flag = HOLD state along every history; while held: no read, no result code; release: exactly one result code of the requested status; spurious release is a no-op',
          'Coq: skeleton invariant + local laws of the hold functions'),
- 'C15': ('cat_service returns OK only if quiescent (reading state, read refused, event machine idle, queue empty) and then nothing changed; idempotent; PARTIAL: the linear progress bound is not proved',
-         'Coq: one-step case analysis for arbitrary oracles; iteration lemma'),
+ 'C15': ('cat_service returns OK only if quiescent (reading state, read refused, event machine idle, queue empty) and then nothing changed; idempotent; and reaches quiescence within an explicit bound linear in pending input, queued events and remaining handler script entries (scripted always-ready environment, no unreleased hold)',
+         'Coq: one-step case analysis for arbitrary oracles; lexicographic measure + well-founded induction for the progress bound'),
  'C16': ('bracket law for any body; failed lock changes nothing but the mutex oracle; exactly one unlock; balanced, never nested along every history',
          'Coq: frame predicate `quiet` over all model functions + induction over the operation list'),
  'C17': ('per-producer exactly-once, in-order delivery for every interleaving of lock-protected bodies (= every history); PARTIAL: data-race freedom of the C object code is validated by the TSan harness, not proved',
@@ -46,7 +46,7 @@ T = {
  'C20': ('parser scratch is dead at IDLE: two runs from states differing only in scratch produce equal traces (state-indexed relational invariant); newline choice mirrors k_cr',
          'Coq: relational (two-run) invariant by induction over the operation list'),
 }
-PARTIAL = {'C03', 'C15', 'C17'}
+PARTIAL = {'C03', 'C17'}
 checks, na = [], []
 for i in range(1, 21):
     pid = 'C%02d' % i
